@@ -316,3 +316,10 @@ CHECKS["C20"]["text"] = CHECKS["C20"]["text"] + (
     "to each hunk of GetGroupedOpCodes(n), applying the hunk and copying the rest yields the second text; lines that contain per-cent "
     "signs, backslashes, quotes, hunk-syntax prefixes or regexp text are part of the differential stage.")
 CHECKS["C20"]["technique"] = "Lean 4 proofs for all inputs (edit-script validity, the hunks are a correct patch, empty diff iff equal texts) + exhaustive differential correspondence"
+
+for _id in ("C05", "C06", "C07", "C13"):
+    CHECKS[_id]["text"] = CHECKS[_id]["text"] + (
+        " (Skeleton tie, as refined: the protocol-level functions are compared through Skel.lite - helper calls, table accesses and "
+        "conditionals with nothing left inside are dropped, everything else including what is returned stays - the function set is the set "
+        "of functions with protocol content, select clauses are sorted, locals are numbered per condition; 25 of 28 recorded harmless "
+        "rewrites are quiet.)")
